@@ -178,6 +178,47 @@ def r_categorical_moment(m):
     return dict(observed=str(got), expected=str(exp), violates=Fraction(str(got)) != exp)
 
 
+def _dist_rewrite(kind):
+    """native search guided by the template witness: real DistTransformer on every combination of printed parameter forms"""
+    import itertools, sympy as sp
+    from program.assignment import DistAssignment
+    from program.distribution import Normal, Uniform, Laplace, Exponential
+    from program.transformer.dist_transformer import DistTransformer
+    forms = ['p', '-p', 'p + q', 'p - q', '-p - q', 'p*q', '-p*q', 'p/q', 'p**2', 'p*q + s']
+    cls, npar, meth, want = {
+        'normal': (Normal, 2, '_transform_normal', lambda ps, u: ps[0] + sp.sqrt(ps[1]) * u),
+        'uniform': (Uniform, 2, '_transform_uniform', lambda ps, u: ps[0] + (ps[1] - ps[0]) * u),
+        'laplace': (Laplace, 2, '_transform_laplace', lambda ps, u: ps[0] + u),
+        'exponential': (Exponential, 1, '_transform_exponential', None)}[kind]
+    tried = 0
+    for combo in itertools.product(forms, repeat=npar):
+        texts = [c.replace('p', f'p{i}').replace('q', f'q{i}').replace('s', f's{i}') for i, c in enumerate(combo)]
+        if kind == 'exponential': texts = ['1/(' + texts[0] + ')']
+        try:
+            res = getattr(DistTransformer(), meth)(DistAssignment('x', cls(list(texts))))
+        except Exception as ex:
+            continue
+        if not isinstance(res, tuple): continue
+        tried += 1
+        d, pa = res
+        u = sp.Symbol(str(d.variable))
+        got = sp.sympify(str(pa.polynomials[0]))
+        ps = [sp.sympify(t) for t in texts]
+        if kind == 'exponential':
+            num = sp.sympify(str(d.distribution.get_params()[0])) if hasattr(d.distribution, 'get_params') else sp.sympify(str(d.distribution.lamb))
+            exp = u * num / ps[0]           # x = den*u with u ~ Exponential(num) and lamb = num/den
+        else: exp = want(ps, u)
+        if sp.simplify(got - exp) != 0:
+            return dict(observed=f'{kind}({", ".join(texts)}) rewritten to {pa.variable} = {got} with {d}', expected=str(exp), violates=True, input=texts)
+    return dict(observed=f'{tried} parameter forms agree', expected='', violates=False)
+
+
+def r_uniform_rewrite(m): return _dist_rewrite('uniform')
+def r_normal_rewrite(m): return _dist_rewrite('normal')
+def r_laplace_rewrite(m): return _dist_rewrite('laplace')
+def r_exponential_rewrite(m): return _dist_rewrite('exponential')
+
+
 def main():
     req = json.load(sys.stdin)
     kind = req['replay']['kind']
